@@ -31,7 +31,7 @@ ENCODED = ["twisted.logger._flatten:flattenEvent", "twisted.logger._flatten:flat
            "twisted.logger._format:formatEvent", "twisted.logger._format:_formatEvent",
            "twisted.logger._format:formatWithCall", "twisted.logger._format:keycall",
            "twisted.logger._format:PotentialCallWrapper", "twisted.logger._format:CallMapping"]
-BOUNDS = {"quick": {"m": 2, "k": 2, "dc": 1}, "thorough": {"m": 3, "k": 3, "dc": 2}}
+BOUNDS = {"quick": {"m": 2, "k": 2, "dc": 1, "cc": 3}, "thorough": {"m": 3, "k": 3, "dc": 2, "cc": 7}}
 B = {}
 
 _in_alpha = _c55._in_alpha
@@ -288,8 +288,8 @@ CHAINS = (
     ("", ".real", ".zz"),                                              # 0 int
     ("", "[0]"),                                                       # 1 str
     ("", "[0]", "[1]", "[9]"),                                         # 2 list
-    ("", "[a]", "[b]", "[b][0]", "[r]", "[r]()", "[s]", "[0]"),        # 3 dict
-    ("", ".a", ".b", ".r", ".r()", ".s", ".s[1]", ".zz"),              # 4 Obj
+    ("", "[a]", "[b][0]", "[r]()", "[b]", "[r]", "[s]", "[0]"),        # 3 dict
+    ("", ".a", ".r()", ".s[1]", ".b", ".r", ".s", ".zz"),              # 4 Obj
     ("", "()"),                                                        # 5 Ret
     ("", "()", "().a", "().r()", "().s[0]", "().r"),                   # 6 RetObj
     ("", "[0]"),                                                       # 7 bytes
@@ -302,7 +302,7 @@ CHAINS = (
 
 def chain(va: int, ci: int, tail: str) -> bool:
     """
-    pre: 0 <= va < NVAL and 0 <= ci < len(CHAINS[va])
+    pre: 0 <= va < NVAL and 0 <= ci < len(CHAINS[va]) and ci <= B['cc']
     pre: len(tail) <= B['k']
     pre: _in_alpha(tail)
     post: _
@@ -340,7 +340,10 @@ def double(t1: int, t2: int, va: int, second: int, ci: int) -> bool:
 def _single_shards(tier):
     m = BOUNDS[tier]["m"]
     out = [("len(body) <= %d" % (m - 1),)]
-    out += [("len(body) == %d" % m, "va == %d" % a) for a in range(NVAL)]
+    # quick tier: the longest bodies only with log_failure / log_level in the event; the same format
+    # strings without them are chain()'s empty chain with a tail of k = m characters
+    out += [("len(body) == %d" % m, "va == %d" % a) + (("fl == True",) if tier == "quick" else ())
+            for a in range(NVAL)]
     return out
 
 
@@ -385,8 +388,8 @@ VECTORS = {
 BOUNDS_TEXT = ("format strings '<{a' + body + '}>' with symbolic body of <= m characters over the 14 characters "
                "{ } ! : . [ ] ( ) a b 0 r s (single; with and without log_failure + log_level), '{' + body + '}' "
                "with entirely symbolic body of <= m characters (free_field), 'a' + one of the lookup chains that "
-               "exist on the value (attribute, index, call syntax in last and non-last position; 40 chains in "
-               "all) + symbolic tail of <= k characters = conversion / format spec / anything (chain), and two "
+               "exist on the value (attribute, index, call syntax in last and non-last position; the first "
+               "cc+1 of up to 8 chains per value, 40 in all) + symbolic tail of <= k characters = conversion / format spec / anything (chain), and two "
                "fields {x t1} and {x|b t2} with x one of the first dc+1 chains of the value and t1, t2 from 10 conversion / spec suffixes incl. "
                "nested specs (double; menus); values: int, str with quote / backslash / non-ASCII / newline, "
                "list, dict, object with attributes, callables returning text / an object / a fresh count per "
